@@ -37,6 +37,38 @@ CHECKS["C07"] = (
     "DESIGN.md section 4, C07",
 )
 
+CHECKS["C14"] = (
+    "string-shape analysis of replacement keys/values, table rule on the glob set, path-order rule",
+    "Decides the structural clauses of link retargeting: every str.replace key is '[[' + source-name + a non-empty link delimiter, both "
+    "delimiters (']' and '#') are covered, each value mirrors its key with the destination name derived by the same transforms, names are "
+    "derived by exact suffix removal (no strip()-as-suffix), a page name is never interpolated into a regex unescaped, the rewrite loop "
+    "visits exactly *.zo/*.zot/*.zoq recursively and rewrites each file from its own content, and the rename precedes the rewrites. "
+    "These hold for all (A, B) pairs and directory contents because they are facts about the code's shapes, not about sampled names.",
+    "Does not decide byte-level results (newline translation by read_text/write_text is outside). A regex-based rewrite is reported as undecided (exit 2) unless it is refuted by the missing re.escape.",
+    "DESIGN.md section 4, C14",
+)
+CHECKS["C15"] = (
+    "path enumeration + propositional decision over the wrap condition, None-check discipline rule, purity rule",
+    "Decides: (R1) on every path that returns a saved clause or substitutes it for {name}, the text is parenthesised unless the path "
+    "excludes a '|' in it, for every valuation of the other branch atoms; (R2) every result of the two expansion functions is tested for "
+    "None before any use and the None branch ends in an error; (R3) nested names are expanded through the same function; (R4) the clause is "
+    "read from the .zoq file on each call and no module-level cache or memoiser is consulted. Quantifies over all saved-query sets because "
+    "the obligations are per path, not per input.",
+    "Does not evaluate result sets or termination on cyclic sets (excluded by the statement). Trusts the query grammar's subfilter rule.",
+    "DESIGN.md section 4, C15",
+)
+CHECKS["C16"] = (
+    "path enumeration with truth-table (decision) evaluation over exists/overwrite atoms, must-pass-through and who-may-call rules",
+    "Decides: (R1) for every path of init_from_template that reaches a write of the target there is no valuation of the branch atoms with "
+    "exists(target)=T and overwrite=F (local boolean definitions are expanded, unknown atoms are free), and the tested path is the written "
+    "path; (R2) patterns are tried in configuration order and the loop leaves at the first match; (R3) every writing path matched a pattern "
+    "or was given a template; (R4) only configuration-fed call sites may pass the overwrite flag (4 call sites); (R5) the date-like capture "
+    "regex and strptime format agree; (R6) the stripped template copy is rebuilt on every path before it is rendered and no module-level "
+    "cache is consulted. Idempotence follows from R1.",
+    "Rendered bytes are jinja2's; not decided. Trusts Path.exists/write_text semantics.",
+    "DESIGN.md section 4, C16",
+)
+
 NOT_YET = {
 }
 
